@@ -12,6 +12,7 @@ ALL = {
     "alias-schema-not-parsed": ("F30", {"C08", "C02"}), "alias-target-substituted": ("F30", {"C02"}),
     "inline-prop-named-like-schema": ("F37", {"C02"}), "synthetic-name-shadows-declared-schema": ("F37", {"C02"}), "synthetic-looking-name-loses-fields": ("F37", {"C02"}),
     "nested-pointer-ref-resolved-by-last-segment": ("F66", {"C02"}),
+    "synthetic-name-collision": ("F70", {"C02", "C19"}),
     "sanitize-twice-name-not-parsed": ("F50", {"C08"}), "depth-limit-bypassed-recursion-error": ("F51", {"C08"}), "depth-limit-bypassed-recursion-error-unsanitised-name": ("F61", {"C08"}),
     "cycle-placeholder-replaces-schema": ("F52", {"C02"}), "ref-typed-as-unregistered-copy": ("F52", {"C02"}), "unresolved-stub-replaces-schema": ("F52", {"C02"}),
     "field-kind-differs": ("F52", {"C02"}), "fields-differ-other": ("F52", {"C02"}), "required-flag-differs": ("F52", {"C02"}),
@@ -37,5 +38,11 @@ def classes_for(prop: str) -> dict:
 def run(run, ctx, prop: str, known, quick=1.0, thorough=6.0) -> None:
     g.run_corr(run, ctx, CORR, "Tracker + Parser (event trace, registry, specFields/modelFields vs the real loader at depth limits 3/10/150)", quick=quick, thorough=thorough)
     g.run_oracle(run, ctx, Scoped(known, prop), CORR, "parser invariants / faithfulness / permutation invariance on the real loader", classes_for(prop), quick=quick, thorough=thorough)
+    # the third fragment (allOf inheritance, inline objects, enums, nullable): membership decided by the driver (inFragment3), the real
+    # loader must be faithful on every accepted document; its oracle runs the same judge over a generator aimed at that fragment
+    g.run_corr(run, ctx, "vf.corr.faith3", "Parser on the Simple3 fragment (C02c.inFragment3_sound: accepted documents must load faithfully; trace vs parseSpec)",
+               quick=quick * 0.5, thorough=thorough * 0.5)
+    g.run_oracle(run, ctx, Scoped(known, prop), "vf.corr.faith3", "faithfulness / permutation invariance on documents aimed at Simple3", classes_for(prop),
+                 quick=quick * 0.5, thorough=thorough * 0.5)
     mine = {fid for fid, props in ALL.values() if prop in props}
     g.replay_witnesses(run, known, {fid: CORR for fid in mine})
